@@ -193,9 +193,11 @@ class VersionedDataHandler:
             observed_batch_margin = np.where(obs_indices == -1, norm_margin[0], batch_margin[clipped_indices])
 
             est_margins = observed_norm_margin * observed_vote + observed_batch_margin * (percs - observed_vote)
+            # at 0 percent there are no votes to average over (div-by-zero): the estimate there is the margin of the
+            # batch that follows, which is the earliest recorded norm_margin if nothing has been observed yet
             est_margins = np.divide(
-                est_margins, percs, where=percs != 0, out=np.zeros_like(est_margins), casting="unsafe"
-            )  # Handle div-by-zero
+                est_margins, percs, where=percs != 0, out=observed_batch_margin.astype(float), casting="unsafe"
+            )
 
             # Return a DataFrame with the multi-index (geographic_unit_fips, perc)
             return pd.DataFrame(
